@@ -57,6 +57,7 @@ def run(ctx):
     builder_agreement(ctx)
     key_handling(ctx)
     stored_h1_is_the_one_used(ctx)
+    same_half_rotation(ctx)
 
 
 def stored_h1_is_the_one_used(ctx):
@@ -108,6 +109,79 @@ def stored_h1_is_the_one_used(ctx):
         ctx.ob("KEYS-4", f"{fi.qualname}: what it stores next to the rewritten h1 is computed from that h1", not bad,
                "; ".join(f"'{k}' reads the incoming ham_data['h1'], not the one stored" for k, _ in bad[:3]) or
                f"keys {sorted(ks)} read h1 only through the stored value", fi)
+
+
+def same_half_rotation(ctx):
+    """PAIR-1 (half rotation).  rot_h1 = A h1 and rot_chol[g] = A L_g are the same one-sided rotation of two operators: the
+    energy adds a one-body term built from the first to two-body terms built from the second, and the restricted /
+    unrestricted siblings are compared term by term.  Positive witness: for one spin block the matrix applied to h1 and
+    the one applied to the Cholesky vectors are built from the same orbitals and differ by a complex conjugation (one is
+    C^dagger, the other C^T).  Frozen exception: noci, whose determinants are documented as real (both spellings coincide)."""
+    from ..symex import strip_wrappers, subterms, array_fn, call_parts
+    p = ctx.p
+    hd = sym("ham_data")
+    seen = set()
+
+    def unconj(t):
+        """(term without conjugations, number of conjugations removed mod 2)"""
+        t = strip_wrappers(t)
+        n = 0
+        for _ in range(8):
+            if t.op == "call" and t.args[0].op == "attr" and t.args[0].args[1] in ("conj", "conjugate") and len(t.args) == 1:
+                t, n = strip_wrappers(t.args[0].args[0]), n + 1
+            elif t.op == "call" and (array_fn(t) or "") in ("conj", "conjugate") and len(call_parts(t)[1]) == 1:
+                t, n = strip_wrappers(call_parts(t)[1][0]), n + 1
+            elif t.op == "attr" and t.args[1] == "T":
+                inner, k = unconj(t.args[0])
+                return (simplify_T(inner), (n + k) % 2)
+            else:
+                break
+        return t, n % 2
+
+    def simplify_T(x):
+        from ..symex import mk
+        return mk("attr", x, "T")
+
+    for cq in p.subclasses("wavefunctions.wave_function", include_self=False):
+        fi = p.lookup_method(cq, "_build_measurement_intermediates")
+        if fi is None or fi.node is None or fi.qualname in seen or fi.is_abstract:
+            continue
+        seen.add(fi.qualname)
+        if cq.split(".")[-1] == "noci":
+            continue
+        ev = Evaluator(p)
+        ev.inline_policy = lambda callee, rc, fr_: callee.module == "wavefunctions"
+        try:
+            R = ev.result(ev.eval_function(fi, self_class=cq))
+        except Exception:  # noqa
+            continue
+        if R is None:
+            continue
+        rh, rc = strip_wrappers(getitem(R, const("rot_h1"))), strip_wrappers(getitem(R, const("rot_chol")))
+        if (rh.op == "getitem" and rh.args[0] is R) or (rc.op == "getitem" and rc.args[0] is R):
+            continue
+        pairs = []
+        blocks = [(getitem(rh, const(s_)), getitem(rc, const(s_))) for s_ in (0, 1)] if rh.op in ("list", "tuple") else [(rh, rc)]
+        for a, b in blocks:
+            a, b = strip_wrappers(a), strip_wrappers(b)
+            la = a.args[1] if a.op == "binop" and a.args[0] == "@" else None
+            lb = None
+            if b.op == "call" and array_fn(b) == "einsum":
+                ops_ = call_parts(b)[1]
+                if len(ops_) == 3:
+                    lb = ops_[1]
+            if la is not None and lb is not None:
+                pairs.append((la, lb))
+        bad = []
+        for la, lb in pairs:
+            ua, na = unconj(la)
+            ub, nb = unconj(lb)
+            if ua is ub and na != nb:
+                bad.append((show(la, maxdepth=2)[:40], show(lb, maxdepth=2)[:40]))
+        if pairs:
+            ctx.ob("PAIR-1", f"{fi.qualname}: rot_h1 and rot_chol are half-rotated with the same matrix", not bad,
+                   "; ".join(f"h1 is rotated with {x}, the Cholesky vectors with {y}: they differ by a complex conjugation"
+                             for x, y in bad[:2]) or f"{len(pairs)} spin block(s): same matrix on both", fi)
 
 
 def ctx_keys_written(R, hd):
